@@ -167,6 +167,17 @@ def rule3_fields(ctx, v):
     ctx.floor('C07.3', 6)
 
 
+def rule5_chain(ctx, fl):
+    ctx.doc('C07.5', 'myth_wake_many_from_queue (used only by the join counter): the n dequeued waiters are chained privately - the '
+            'new element becomes the tail on every iteration, is linked behind the old tail, ends the chain - and all n are then '
+            'pushed starting from the head')
+    v = ctx.view(NATIVE, roots=['myth_wake_many_from_queue'], stops=('myth_sleep_queue_deq_th', 'myth_sleep_queue_deq', 'myth_queue_push',
+                                                                   'myth_get_current_env'), flavour=fl)
+    f = ctx.need_fn(v, 'myth_wake_many_from_queue')
+    lib.chain_discipline(ctx, 'C07.5', f, ('myth_sleep_queue_deq_th', 'myth_sleep_queue_deq'), 'wake_many_from_queue')
+    ctx.floor('C07.5', 6)
+
+
 def rule_init_complete(ctx, fl):
     ctx.doc('C07.4', 'initialiser completeness: every field of the join counter that myth_join_counter_wait_body / myth_join_counter_dec_body read(s), directly or through an inlined helper, '
             'is written by myth_join_counter_init_body (an object placed in recycled memory must not depend on its previous contents)')
@@ -184,12 +195,16 @@ def run(ctx):
                                     'myth_join_counter_init_body', 'calc_bits'],
                      stops=('myth_block_on_queue', 'myth_wake_many_from_queue', 'myth_sleep_queue_init', 'calc_bits'), flavour=fl)
         rule1_wait(ctx, v)
+        rule5_chain(ctx, fl)
         rule2_dec(ctx, v)
         rule3_fields(ctx, v)
 
 
 SYNC = 'src/myth_sync_func.h'
 MUTANTS = [
+    {'name': 'wake chain tail advances only for the first waiter (seed2 C07/m2)', 'expect': 'C07.5',
+     'edits': [(SYNC, "      to_wake_head = to_wake;\n    }\n    to_wake_tail = to_wake;\n  }\n  /* do any action after dequeueing from the sleep queue\n     but before really putting it in the run queue.\n     (for mutex,",
+                "      to_wake_head = to_wake;\n      to_wake_tail = to_wake;\n    }\n  }\n  /* do any action after dequeueing from the sleep queue\n     but before really putting it in the run queue.\n     (for mutex,")]},
     {'name': 'join_counter_init forgets the state word', 'expect': 'C07.4',
      'edits': [(SYNC, '  /* number of waiters|number of decrements so far */\n  jc->state = 0;\n', '')]},
     {'name': 'wakes n_threads instead of the recorded waiters', 'expect': 'C07.2',
